@@ -863,6 +863,31 @@ package rewriter
 //@   ensures[delegates] W == importsCleaned(ptr(f), old(W))      -- C13: side-effect imports of a processed file survive
 //@   modifies W
 
+// the per-file closure of the optimiser: the two reductions run first, the imports are cleaned on their result, then the file is printed
+// (D30: cleaning first left an import whose last user was a literal removed by eta reduction). The reductions themselves are external
+// matcher traversals: their effect on the ghost world is abstract (delayElided, etaReduced); what they replace is checked by the scans.
+//@ extern log.Printf(format, a)
+//@   ensures true
+//@ extern imports.Uses(f, pkg) (u)
+//@   ensures u == fileUsesSeq(ptr(f))
+//@ type-contract FilePrinter (filename, f)
+//@   ensures W == printed(ptr(f), old(W))
+//@   modifies W
+//@ func (o *optimizer) optimizeDelayCall()
+//@   trusted      -- registers a matcher pattern and runs the matcher over the loaded files (external); guard checked by scan rw-delay-elision
+//@   ensures W == delayElided(old(W))
+//@   modifies W
+//@ func (o *optimizer) etaReduction()
+//@   trusted      -- registers a matcher pattern and runs the matcher over the loaded files (external); guard checked by scan rw-eta-guard, side conditions by matched/stableCallee
+//@   ensures W == etaReduced(old(W))
+//@   modifies W
+//@ closure optimizer.optimizeAllFiles#0 as @VisitAllFiles.0 (f)
+//@   captured-inv o != nil && printer != nil && seqPkg != nil      -- optimizeAllFiles returns early when the seq package is not loaded
+//@   requires f != nil
+//@   ensures[skips-foreign-files] !fileUsesSeq(ptr(f)) ==> W == old(W)
+//@   ensures[imports-cleaned-last] fileUsesSeq(ptr(f)) ==> W == printed(ptr(f), importsCleaned(ptr(f), etaReduced(delayElided(old(W)))))
+//@   modifies W
+
 //@ pred EtaShape(lit *ast.FuncLit) := lit != nil && lit.Body != nil && len(lit.Body.List) == 1 && isa(lit.Body.List[0], ReturnStmt) && !isnil(lit.Body.List[0])
 //@        && len(as(lit.Body.List[0], ReturnStmt).Results) == 1 && isa(as(lit.Body.List[0], ReturnStmt).Results[0], CallExpr)
 //@        && !isnil(as(lit.Body.List[0], ReturnStmt).Results[0])
